@@ -3,7 +3,7 @@
    generate_dependent_dispatch's strategies; typemap.resolve's chain of per-rank dispatchers with fall-through). *)
 From Coq Require Import ZArith List Bool Arith.
 Import ListNotations.
-From OvldV Require Import Model.Order Model.Ty Model.Codec Model.Resolve Model.Dep Proofs.DepFacts.
+From OvldV Require Import Model.Order Model.Ty Model.Codec Model.Resolve Model.Dep Proofs.DepFacts Proofs.TyOrder.
 
 (* the generated check of a type computes isinstance: for a value-dependent type on the instances of its bound (what the
    type-level filter establishes at the top level); under | and & each dependent member is wrapped in its bound test, so
@@ -55,6 +55,16 @@ Theorem C10_count_sound : forall sub hasm chk utab hs slots args i,
   exists h, In h hs /\ m_id h = i /\ conj sub hasm chk utab h slots args = Some true.
 Proof. exact count_sound. Qed.
 Print Assumptions C10_count_sound.
+
+(* "when the condition holds it is preferred over methods declared on the bound or its subclasses": in the type
+   order every value-dependent type with a class bound b is strictly more specific than every class comparable with b
+   (its subclasses and its superclasses), from both sides; with the level lemma of C02 (a strictly more specific
+   registered type gets a strictly larger level) a holding dependent method therefore outranks them. *)
+Theorem C10_preferred_over_bound_classes : forall sub hasm chk fresh n t b c,
+  is_dep t = true -> dep_bound t = Cls b -> (sub c b = true \/ sub b c = true) ->
+  tord sub hasm chk fresh (S (S n)) t (Cls c) = Some LESS /\ tord sub hasm chk fresh (S (S n)) (Cls c) t = Some MORE.
+Proof. exact tord_dep_over_class. Qed.
+Print Assumptions C10_preferred_over_bound_classes.
 
 (* KF-08 (open): call_next from a method of a value-dependent rank with another value of the same types goes to the NEXT
    rank: same-rank siblings whose condition holds for the new value are skipped.
